@@ -15,5 +15,6 @@ CONSTANTS
   DEV_WalkRawName = FALSE
   DEV_LinkRawName = FALSE
   DEV_LinkOneSlash = FALSE
+  Unpriv <- MCFalse
 POSTCONDITION TraceConsumed
 CHECK_DEADLOCK FALSE
